@@ -24,7 +24,7 @@ from vlib.pat import Pat, returned
 from vlib.front import unparse, dotted, const_value, AnchorMissing
 
 MG = 'phylib/io/merge.py'
-FLOOR = 18
+FLOOR = 14
 EXPLANATION = ('proto/sym walks of the Merger methods with the helper calls as uninterpreted pure terms: what is saved under each name is '
                'compared with concat(files in input order)[spike_order]; the loop body of write_spike_clusters is walked from a symbolic '
                'accumulator state and the recurrence / shift / recorded offset / probe-table block compared as normal forms; fx over '
@@ -223,15 +223,20 @@ def s1_offsets(ctx):
             role['clu'] = tv
         if src.get(zn) == 'spike_templates.npy':
             role['tmp'] = tv
-    ctx.check('clu' in role and 'tmp' in role and 'self.subdirs' in znames, 'C11.S1', f, lp.iter,
-              'the probe loop runs over (directory, its spike_clusters, its spike_templates) in input order',
-              'the probe loop does not pair every directory with its own spike_clusters / spike_templates (%s)' % znames)
+    reordered = any(isinstance(n, ast.Call) and (dotted(n.func) or '') in ('sorted', 'reversed') or (isinstance(n, ast.Subscript) and isinstance(n.slice, ast.Slice) and n.slice.step is not None)
+                    for a_ in zipc[0].args for n in ast.walk(a_))
+    if 'clu' in role and 'tmp' in role and not reordered:
+        ctx.holds('C11.S1', f, 'the probe loop runs over (the spike_clusters, the spike_templates) of every probe, paired positionally in input order', lp.iter)
+    elif reordered or (set(znames) & set(src) and len(set(znames) & set(src)) < 2 and len(src) >= 2):
+        ctx.violated('C11.S1', f, lp.iter, 'the probe loop does not pair the spike_clusters of every probe with its own spike_templates in input order (%s)' % znames)
+    else:
+        ctx.undecided('C11.S1', f, 'operands of the probe loop not recognised (%s)' % znames, lp.iter)
     if 'clu' not in role or 'tmp' not in role:
         return
     # accumulators: names initialised to 0 before the loop and augmented in it
     accs = [a.target.id for a in lp.body if isinstance(a, ast.AugAssign) and isinstance(a.target, ast.Name) and isinstance(a.op, ast.Add)
             and a.target.id not in (role['clu'], role['tmp'])]
-    inits = {unparse(a.targets[0]): const_value(a.value) for a in f.body() if isinstance(a, ast.Assign)}
+    inits = {unparse(t_): const_value(a.value) for a in f.body() if isinstance(a, ast.Assign) for t_ in a.targets}      # `a = b = 0` initialises both
     for acc in accs:
         ctx.check(inits.get(acc) == 0, 'C11.S1', f, acc, 'offset accumulator %s starts at 0' % acc, 'offset accumulator %s does not start at 0' % acc)
     SC, ST, i = T('SC'), T('ST'), T('i')
@@ -320,7 +325,8 @@ def s1_offsets(ctx):
     g = repo.lookup_method(cls, 'write_cluster_data')
     okz = undz = False
     node = None
-    for lp2 in g.nodes(ast.For):
+    g_all = repo.transparent_closure(g)
+    for lp2 in [l_ for f_ in g_all for l_ in f_.nodes(ast.For)]:
         if isinstance(lp2.iter, ast.Call) and dotted(lp2.iter.func) == 'zip':
             zs = [unparse(a) for a in lp2.iter.args]
             if 'self.subdirs' in zs:
@@ -332,7 +338,20 @@ def s1_offsets(ctx):
                     rd = [c for c in ast.walk(lp2) if isinstance(c, ast.Call) and dotted(c.func) == '_read_tsv_simple']
                     st_ = [a for a in ast.walk(lp2) if isinstance(a, ast.Assign) and isinstance(a.targets[0], ast.Subscript)]
                     items = [f for f in ast.walk(lp2) if isinstance(f, ast.For) and f is not lp2 and isinstance(f.iter, ast.Call) and q.method_name(f.iter) == 'items' and isinstance(f.target, ast.Tuple)]
-                    if not rd or not st_ or not items:
+                    upd = [c_ for c_ in ast.walk(lp2) if isinstance(c_, ast.Call) and q.method_name(c_) == 'update' and c_.args and isinstance(c_.args[0], (ast.GeneratorExp, ast.ListComp, ast.DictComp))]
+                    if rd and upd and not st_:
+                        ge_ = upd[0].args[0]
+                        gt_ = ge_.generators[0].target
+                        if isinstance(ge_, ast.DictComp):
+                            kx, vx = ge_.key, ge_.value
+                        else:
+                            kx, vx = (ge_.elt.elts if isinstance(ge_.elt, ast.Tuple) and len(ge_.elt.elts) == 2 else (None, None))
+                        if isinstance(gt_, ast.Tuple) and len(gt_.elts) == 2 and kx is not None and isinstance(ge_.generators[0].iter, ast.Call) and q.method_name(ge_.generators[0].iter) == 'items':
+                            kv, vv = (unparse(x) for x in gt_.elts)
+                            okz = dv in unparse(rd[0].args[0]) and Pat().m('%s + %s' % (kv, ov), kx) and unparse(vx) == vv
+                        else:
+                            undz = True
+                    elif not rd or not st_ or not items:
                         undz = True
                     else:
                         kv, vv = (unparse(x) for x in items[0].target.elts)
